@@ -12,22 +12,22 @@ import checklib
 
 # property -> (module, NEXT, INVARIANT, {tier: constants})
 FUN_MODELS = {
-    "C01": ("MCFun", "Next_C01", "Inv_C01", {"quick": (5, 5), "thorough": (7, 8)}),
-    "C02": ("MCFun", "Next_C02", "Inv_C02", {"quick": (5, 6), "thorough": (7, 8)}),
-    "C04": ("MCFun", "Next_C04", "Inv_C04", {"quick": (5, 6), "thorough": (8, 9)}),
-    "C05": ("MCFun", "Next_C05", "Inv_C05", {"quick": (8, 0), "thorough": (11, 0)}),
-    "C06": ("MCFun", "Next_C06", "Inv_C06", {"quick": (8, 0), "thorough": (11, 0)}),
-    "C07": ("MCFun", "Next_C07", "Inv_C07", {"quick": (4, 2), "thorough": (6, 3)}),
-    "C08": ("MCFun", "Next_C08", "Inv_C08", {"quick": (7, 0), "thorough": (10, 0)}),
-    "C09": ("MCFun", "Next_C09", "Inv_C09", {"quick": (5, 5), "thorough": (7, 7)}),
-    "C11": ("MCFun", "Next_C11", "Inv_C11", {"quick": (8, 0), "thorough": (10, 0)}),
-    "C12": ("MCFun", "Next_C12", "Inv_C12", {"quick": (8, 0), "thorough": (10, 0)}),
-    "C13": ("MCFun", "Next_C13", "Inv_C13", {"quick": (8, 0), "thorough": (10, 0)}),
-    "C14": ("MCFun", "Next_C14", "Inv_C14", {"quick": (5, 0), "thorough": (8, 0)}),
-    "C15": ("MCFun", "Next_C15", "Inv_C15", {"quick": (6, 3), "thorough": (8, 4)}),
-    "C16": ("MCFun", "Next_C16", "Inv_C16", {"quick": (9, 0), "thorough": (12, 0)}),
+    "C01": ("MCFun", "Next_C01", "Inv_C01", {"quick": (5, 5), "thorough": (8, 8)}),
+    "C02": ("MCFun", "Next_C02", "Inv_C02", {"quick": (5, 6), "thorough": (8, 8)}),
+    "C04": ("MCFun", "Next_C04", "Inv_C04", {"quick": (5, 6), "thorough": (9, 9)}),
+    "C05": ("MCFun", "Next_C05", "Inv_C05", {"quick": (8, 0), "thorough": (13, 0)}),
+    "C06": ("MCFun", "Next_C06", "Inv_C06", {"quick": (8, 0), "thorough": (13, 0)}),
+    "C07": ("MCFun", "Next_C07", "Inv_C07", {"quick": (4, 2), "thorough": (7, 3)}),
+    "C08": ("MCFun", "Next_C08", "Inv_C08", {"quick": (7, 0), "thorough": (12, 0)}),
+    "C09": ("MCFun", "Next_C09", "Inv_C09", {"quick": (5, 5), "thorough": (8, 8)}),
+    "C11": ("MCFun", "Next_C11", "Inv_C11", {"quick": (8, 0), "thorough": (12, 0)}),
+    "C12": ("MCFun", "Next_C12", "Inv_C12", {"quick": (8, 0), "thorough": (12, 0)}),
+    "C13": ("MCFun", "Next_C13", "Inv_C13", {"quick": (8, 0), "thorough": (12, 0)}),
+    "C14": ("MCFun", "Next_C14", "Inv_C14", {"quick": (5, 0), "thorough": (9, 0)}),
+    "C15": ("MCFun", "Next_C15", "Inv_C15", {"quick": (6, 3), "thorough": (9, 4)}),
+    "C16": ("MCFun", "Next_C16", "Inv_C16", {"quick": (9, 0), "thorough": (14, 0)}),
     "C19": ("MCFun", "Next_C19", "Inv_C19", {"quick": (0, 0), "thorough": (0, 0)}),
-    "C20": ("MCFun", "Next_C20", "Inv_C20", {"quick": (4, 4), "thorough": (5, 5)}),
+    "C20": ("MCFun", "Next_C20", "Inv_C20", {"quick": (4, 4), "thorough": (6, 5)}),
 }
 
 
